@@ -117,6 +117,9 @@ CFGS = {
     "ThrB": _c(SFwd2=3, Acc2=8, OffPos=[1, 2, 3], OffNeg=[1, 2], MaxSamples=2),
     "ThrC": _c(Fwd2=6, Bwd2=3, Acc2=7, OffPos=[0, 1, 2, 3], OffNeg=[1, 2]),
     "ThrD": _c(N=2, MinAgree=2, Fwd2=4, Bwd2=4, MaxChan=2, OffPos=[0, 2, 3], OffNeg=[2]),
+    # sources that never announce a leap status (GPS/PPS-like, or no vote majority): the phase change start-up ->
+    # running and the accumulation of steps must not depend on the leap vote
+    "ThrL": _c(SBwd2=6, Fwd2=4, Bwd2=5, Acc2=7, OffPos=[1, 2, 3], OffNeg=[1, 2], LeapVals=["unknown", "none"]),
     # frequency (single source slot, slews for |change| <= 1 s)
     "FrqA": _c(TrackFreq=True, StepThresh=1, Fwd2=5, OffPos=[0, 1, 2], OffNeg=[1], Bound=2),
     "FrqB": _c(TrackFreq=True, StepThresh=1, F0=445, OffPos=[0, 1, 2], OffNeg=[1]),
@@ -161,14 +164,14 @@ def gen_cfgs():
 # ClockCtl: model + transition-tour replay through the real wrapper
 # ------------------------------------------------------------------------------------------------
 QUICK = {
-    "C01": ["ThrA", "ThrB", "ThrC", "FrqA"],
+    "C01": ["ThrA", "ThrB", "ThrC", "ThrL", "FrqA"],
     "C02": ["FrqA", "FrqC", "FrqD"],
     "C03": ["ConsA"],
     "C04": ["ConsC"],
     "C37": ["ChanS", "ChanG", "ChanA"],
 }
 THOROUGH = {
-    "C01": ["ThrA", "ThrB", "ThrC", "ThrD", "FrqA", "FrqB"],
+    "C01": ["ThrA", "ThrB", "ThrC", "ThrL", "ThrD", "FrqA", "FrqB"],
     "C02": ["FrqA", "FrqB", "FrqC", "FrqD", "ThrA"],
     "C03": ["ConsA", "ConsB", "ThrD"],
     "C04": ["ConsC", "ConsB"],
@@ -375,10 +378,11 @@ def ctl_model(out, prop, tier, seed):
 # the property on the log
 # ------------------------------------------------------------------------------------------------
 def filter_shapes(out, prop, tier, seed):
-    cfg = "quick" if tier == "quick" else "big"
     shapes = []
-    res = vf.run_tlc("FilterShapes", "Gen_FilterShapes_%s.cfg" % cfg, workers=8, timeout=1500, tags=("EDGE",),
-                     line_sink=lambda tag, obj: shapes.append(obj), coverage=False)
+    # the adversarial alphabet, and the quiet one: constant delays with no or tiny offset jitter (low-noise links)
+    for cfg in ["quick" if tier == "quick" else "big", "const"]:
+        res = vf.run_tlc("FilterShapes", "Gen_FilterShapes_%s.cfg" % cfg, workers=8, timeout=1500, tags=("EDGE",),
+                         line_sink=lambda tag, obj: shapes.append(obj), coverage=False)
     if not shapes:
         raise vf.ToolError("FilterShapes enumerated nothing")
     shapes.sort(key=vf.key)
